@@ -7,6 +7,8 @@ Scenario (JSON):
   {'port': {'enabled': b, 'writable': b, 'expr': b, 'initial': value the read-back port shows before the first write | null},
    'seq':  {'values': [...], 'delays': [...], 'repeat': r},            first request, sent at virtual time 0
    'cmd':  {'kind': 'none'|'seq'|'expr'|'noexpr'|'disable', 'at': ms, 'pos': k, 'values':…, 'delays':…, 'repeat':…},
+   'dlat': ms the driver's handle_disable() hook takes (optional, default 0),
+   'cmd2': optional second command {'kind': 'seq'|'disable', ...} started in the same loop iteration right after `cmd`,
    'horizon': ms}
 
 `at`/`pos` place the command in the event-loop order: it runs at virtual time `at`, after exactly `pos` steps of the sequence
@@ -19,6 +21,7 @@ Observation: {'log': [[kind, ms, val, active], ...], 'writes': [[ms, value], ...
   kind 0 P  first request returned (val = outcome code)       3 C  command starts
        1 S  transform_and_write_value called (val = value)    4 D  command returned (val = outcome code)
        2 F  _on_sequence_finish ran                           5 E  horizon reached
+       6 D2 the concurrent second command returned
   active = `port._sequence is not None` right after the event.
 Outcome codes: 0 ok, 1 port-disabled, 2 read-only-port, 3 port-with-expression, 4 invalid-field delays, 5 CancelledError,
 6 invalid-field values, 9 anything else.
@@ -30,7 +33,7 @@ import sys
 
 from harness.common import vloop
 
-P, S, F, C, D, E = 0, 1, 2, 3, 4, 5
+P, S, F, C, D, E, D2 = 0, 1, 2, 3, 4, 5, 6
 EXPR_VALUES = (7777, 9999)
 TIE_EPS = 2e-10          # seconds; asyncio's clock resolution (1e-9) makes timers this close fire in the same batch
 
@@ -75,6 +78,7 @@ class Impl:
                 super().__init__(port_id)
                 self.writes = []
                 self.state = initial
+                self.disable_latency = 0
 
             async def read_value(self):
                 if self.state is None:
@@ -84,6 +88,11 @@ class Impl:
             async def write_value(self, value):
                 self.writes.append([vloop.vtime_ms(), value])
                 self.state = value
+
+            # a driver whose disable hook really awaits (scripted latency, 0 in most scenarios)
+            async def handle_disable(self):
+                if self.disable_latency > 0:
+                    await asyncio.sleep(self.disable_latency / 1000.0)
 
         self.RecPort = RecPort
 
@@ -128,6 +137,7 @@ class Impl:
         cls = type('RecPort%d' % self.counter, (self.RecPort,), {'WRITABLE': bool(sc['port']['writable'])})
         self.core_main._update_lock = None      # an asyncio.Lock of the previous scenario's loop
         port = (await core_ports.load([{'driver': cls, 'port_id': pid, 'initial': sc['port'].get('initial')}]))[0]
+        port.disable_latency = sc.get('dlat', 0)
         log, notes = [], []
 
         def active():
@@ -180,7 +190,7 @@ class Impl:
                 req = self.request('/ports/%s/sequence' % pid, json.dumps(body).encode())
                 await self.api_ports.patch_port_sequence(req.handler, pid, body)
 
-            async def run_cmd(coro, start_kind, end_kind):
+            async def run_cmd(coro, start_kind, end_kind, check=True):
                 if start_kind is not None:
                     log.append([start_kind, ms(), 0, active()])
                 it0 = loop.iteration
@@ -192,7 +202,7 @@ class Impl:
                     code = self.classify(e)
                     if code == 9:
                         notes.append('exception %s: %s' % (type(e).__name__, e))
-                if len(cancel_iter) > n0 and cancel_iter[n0] != it0:
+                if check and len(cancel_iter) > n0 and cancel_iter[n0] != it0:
                     notes.append('command suspended before reaching Sequence.cancel')
                 log.append([end_kind, ms(), code, active()])
 
@@ -203,19 +213,30 @@ class Impl:
 
             cmd = sc['cmd']
             horizon = sc['horizon']
+
+            def command(c):
+                if c['kind'] == 'seq':
+                    return patch(c)
+                if c['kind'] == 'expr':
+                    return port.set_attr('expression', '9999')
+                if c['kind'] == 'noexpr':
+                    return port.set_attr('expression', '')
+                if c['kind'] == 'disable':
+                    return port.disable()
+                raise ValueError(c['kind'])
+
             if cmd['kind'] != 'none' and cmd['at'] <= horizon:
                 await self.goto(loop, cmd['at'], cmd['pos'], notes)
-                if cmd['kind'] == 'seq':
-                    coro = patch(cmd)
-                elif cmd['kind'] == 'expr':
-                    coro = port.set_attr('expression', '9999')
-                elif cmd['kind'] == 'noexpr':
-                    coro = port.set_attr('expression', '')
-                elif cmd['kind'] == 'disable':
-                    coro = port.disable()
+                if sc.get('cmd2'):
+                    # two commands started in the same loop iteration: each is its own task, the first step of the first
+                    # runs now, the first step of the second right after it (eager start = what two adjacent ready task
+                    # wake-ups do), the rest as the loop schedules them
+                    log.append([C, ms(), 0, active()])
+                    t1 = asyncio.Task(run_cmd(command(cmd), None, D, False), loop=loop, eager_start=True)
+                    t2 = asyncio.Task(run_cmd(command(sc['cmd2']), None, D2, False), loop=loop, eager_start=True)
+                    await asyncio.gather(t1, t2)
                 else:
-                    raise ValueError(cmd['kind'])
-                await run_cmd(coro, C, D)
+                    await run_cmd(command(cmd), C, D)
             end = horizon / 1000.0 + 0.00025
             if loop.time() < end:
                 await asyncio.sleep(end - loop.time())
